@@ -91,6 +91,21 @@ impl X509Certificate {
 		})
 	}
 
+	/// Parses every certificate of a PEM chain and returns the first one (the leaf).
+	pub fn from_pem_chain(pem_data: &[u8]) -> Result<Self, Error> {
+		let mut chain = X509::stack_from_pem(pem_data)?;
+		if chain.is_empty() {
+			return Err("no certificate found".into());
+		}
+		Ok(X509Certificate {
+			inner_cert: chain.remove(0),
+		})
+	}
+
+	pub fn has_public_key(&self, key_pair: &KeyPair) -> Result<bool, Error> {
+		Ok(self.inner_cert.public_key()?.public_eq(&key_pair.inner_key))
+	}
+
 	pub fn from_pem_native(pem_data: &[u8]) -> Result<native_tls::Certificate, Error> {
 		Ok(native_tls::Certificate::from_pem(pem_data)?)
 	}
